@@ -85,7 +85,7 @@ var (
 // derived from the code alone (no-panic, callee precondition, frame, ownership sites).
 func pinStem(name string) string {
 	switch {
-	case name == "":
+	case name == "", strings.Contains(name, ":step:frame_"):
 		return ""
 	case strings.Contains(name, "#ensures:"):
 		return reExitOrd.ReplaceAllString(name, "@exit*")
@@ -185,6 +185,12 @@ func runCheck(cmd, prop, tier, repo, root, only string, keep, verbose, writeExpe
 	// generate
 	var results []*FuncResult
 	for _, fk := range cfg.Functions {
+		// "pkg.Func@regex": only the obligations of this function whose name matches are this property's
+		var filter *regexp.Regexp
+		if at := strings.Index(fk, "@"); at >= 0 {
+			filter = regexp.MustCompile(fk[at+1:])
+			fk = fk[:at]
+		}
 		key := modPath + "/" + fk
 		ct := specs.Contracts[key]
 		if ct == nil {
@@ -199,7 +205,17 @@ func runCheck(cmd, prop, tier, repo, root, only string, keep, verbose, writeExpe
 			insts = []map[string]string{nil}
 		}
 		for _, inst := range insts {
-			results = append(results, verifyFunction(w, specs, ct, inst))
+			r := verifyFunction(w, specs, ct, inst)
+			if filter != nil {
+				var kept []*Obligation
+				for _, o := range r.Obls {
+					if filter.MatchString(o.Name) {
+						kept = append(kept, o)
+					}
+				}
+				r.Obls = kept
+			}
+			results = append(results, r)
 		}
 	}
 	var lemmaObls []*Obligation
